@@ -15,7 +15,7 @@
 (* GEN_MODE = "rand": seeded random 2-D multi-aircraft scenarios GEN_FROM..  *)
 (*   GEN_TO: 1-4 aircraft, start classes {equator, 45 deg, NL transition,    *)
 (*   latitude-zone edge, +-180 deg, near a pole}, 8 headings, speeds up to   *)
-(*   690 kt, report gaps around 0.5 s / 10 s / 180 s / minutes, landings and *)
+(*   670 kt, report gaps around 0.5 s / 10 s / 180 s / minutes, landings and *)
 (*   departures within 40 NM of the receiver reference, then drop /          *)
 (*   duplicate / swap of deliveries.  The premise (speed <= 700 kt, surface  *)
 (*   reports within 40 NM of the reference) is re-measured by the harness's  *)
@@ -101,7 +101,7 @@ Anchor(k) ==
 \* headings: components in 1/1000
 HeadN == << 1000, 707, 0, -707, -1000, -707, 0, 707 >>
 HeadE == << 0, 707, 1000, 707, 0, -707, -1000, -707 >>
-SpeedKt == << 40, 180, 300, 450, 560, 640, 690, 690 >>
+SpeedKt == << 40, 180, 300, 450, 560, 640, 670, 670 >>   \* + lattice rounding (2.4 m per report) < 700 kt
 
 \* gap number n of aircraft i, milliseconds
 Gap(k, i, n) ==
